@@ -38,6 +38,16 @@ CHECKS = {
             'content clause of mj_extractState, exhaustive over all 4.78M sub-signature pairs on one model natively. Not decided: '
             'mj_resetData == fresh mjData.',
             'contracts + symbolic VC generation (cut-point invariants, quantified array facts), z3 LIA+arrays+quantifiers'),
+    'C22': ('DESIGN.md section 4 / C22',
+            'Deductive proof (inductive loop invariants, all lengths) that mju_insertionSort / mju_insertionSortInt (real functions; '
+            'IEEE compare, no NaN) and the repository macros _mjINSERTION_SORT, _mjMERGE, _mjSIFT_DOWN and the run phase of mjSORT '
+            '(instantiated from engine_sort.h at a generic element type) produce a sorted, stable permutation / a merged stable run / '
+            'a restored max-heap: elements carry ghost labels, so permutation and stability are first-order. The pass/block '
+            'composition of mjSORT and the heap build/scan of mjPARTIAL_SORT are covered by a bounded stand-in only (not proof).',
+            'Trusted: VC generator, clang, z3/cvc5, libc memcpy contract, comparator contract (total preorder via int key), '
+            'pigeonhole. n <= 2^30. Bounded stand-in: every n <= 300 (3000 thorough) x 6 key distributions; partial sort exhaustive '
+            'for n <= 7 over 3 keys and all k, on the compiled macro text.',
+            'contracts + inductive loop invariants with ghost element labels, z3 LIA/FP + arrays + quantifiers; bounded native stand-in for the composition'),
 }
 
 NA = {
